@@ -41,7 +41,7 @@ def run(ctx):
         for _ in range(250):
             desc = execlib.gen_layout(rng)
             n = rng.choice([1, 3, 10, rng.randrange(1, maxlen + 1)])
-            cases.append((desc, gen_history(rng, desc, n, 0.08)))
+            cases.append((desc, execlib.with_resets(rng, gen_history(rng, desc, n, 0.08))))
         execlib.check_histories(ctx, rep, cases, 'history', classify=classify)
         done += len(cases)
     # contexts in which the caller leaves tables out: ModbusSlaveContext supplies a default block for each — they must be
